@@ -5,7 +5,7 @@ import shutil
 import tempfile
 import struct
 
-from vlib import gen, scen, wire
+from vlib import gen, scen, transports, wire
 
 PROP = "C10"
 LEVEL = "exploration"
@@ -195,6 +195,8 @@ def run_case(case):
             recs = 0
             while recs < k and pos_ < len(content):
                 n = rng.choice([1, 100, 65536])
+                if plan.reply_first and plan.split_mode == "list":
+                    n = min(n, 2000)          # (pieces of 4-20 bytes, each waiting for its acknowledgement: keep the reply to a few hundred packets)
                 reply += wire.sync_data(content[pos_:pos_ + n])
                 pos_ += n
                 recs += 1
@@ -259,7 +261,8 @@ def run_case(case):
         stats["max_virtual_s"] = round(dt, 6)
         if not viol and sess.dev.available is not True:
             viol.append({"mechanism": "connection-dropped-by-failure", "detail": "%s: afterwards available=%r although only the transfer failed (nobody called close())" % (where, sess.dev.available)})
-        if dt > 1.0 and not viol and not slow_send and not slow_dev and not dims.get("pace"):
+        # (every transport call costs a little virtual time: a reply cut into tens of thousands of tiny WRTEs legitimately takes a while; what is looked for is a wait for a timeout)
+        if dt > 1.0 + 4 * transports.CALL_DT * sess.core.calls_in_op + 2e-4 * len(sess.sim.dev_log) and not viol and not slow_send and not slow_dev and not dims.get("pace"):
             viol.append({"mechanism": "slow-failure", "detail": "%s: %.2f virtual seconds passed before the failure surfaced (timeouts are 10 s)" % (where, dt)})
         sample = {"case": case, "where": where, "outcome": out.brief(100)} if case["seed"][-1] == "3" and case["seed"][-2] in "pwl" else None
         return {"sig": sig, "violations": viol[:3], "stats": stats, "sample": sample}
